@@ -43,17 +43,18 @@ def _warm(t):
 def check_tree(case, R):
     kind, p = case[0], list(case[1])
     edit = case[2] if len(case) > 2 else None
+    types = list(case[3]) if len(case) > 3 and case[3] is not None else None
     n = len(p)
     if n < 2:
         R.trivial()
-    t = build.make_tree(p)
+    t = build.make_tree(p, types=types)
     if edit is not None:
         # history: query everything, re-parent one node in place, query again: answers must describe the CURRENT tree
         t, p, other, other_p = build.apply_reparent(t, p, edit, _warm)
         if other is not None:
             R.state("edited-copy-origin", other_p, edit)
             check_on(other, other_p, R)
-    R.state(p, edit)
+    R.state(p, edit, types)
     check_on(t, p, R)
 
 
@@ -252,7 +253,37 @@ def spaces(tier, seed):
                     for how in build.EDIT_HOWS:
                         yield ("ED", p, (i, j, how))
 
-    out = [Space.of("query-edit-query", gen_edit, check_tree, bounds={"ST_max_nodes": ed_hi, "edits": "every single re-parenting that keeps the tree well-formed", "how": build.EDIT_HOWS}),
+    ty_full, ty_hi = (4, 6) if tier == "quick" else (5, 7)
+
+    def type_patterns(p):
+        """The decomposition is a matter of the parent table alone: it must not depend on how nodes are typed."""
+        n = len(p)
+        ch = ref.children(list(p))
+        tips = [i for i in range(n) if not ch[i]]
+        furs = [i for i in range(n) if len(ch[i]) > 1]
+        yield [1] * n  # every sample labelled soma (soma contours, unlabelled exports)
+        yield [0] * n
+        yield [3] * n  # no soma at all
+        yield [1 if i == 0 or i in tips else 3 for i in range(n)]
+        yield [1 if i in furs else 2 for i in range(n)]
+        yield [3] + [1] * (n - 1)
+
+    def gen_types():
+        import itertools
+
+        for n in range(1, ty_hi + 1):
+            for p in list(S.sorted_trees(n)) + [q for q in (S.labelled_trees(n) if 3 <= n <= ty_full + 1 else ()) if not ref.is_sorted(q)]:
+                if n <= ty_full:
+                    for ty in itertools.product((1, 2, 3), repeat=n):
+                        yield ("TY", p, None, ty)
+                else:
+                    for ty in type_patterns(p):
+                        yield ("TY", p, None, tuple(ty))
+
+    out = [Space.of("typed-trees", gen_types, check_tree,
+                    bounds={"all_type_vectors_over_{1,2,3}_up_to_nodes": ty_full, "patterns_up_to_nodes": ty_hi,
+                            "patterns": ["all 1", "all 0", "all 3", "root and tips 1", "furcations 1 / others 2", "root 3, others 1"]}),
+           Space.of("query-edit-query", gen_edit, check_tree, bounds={"ST_max_nodes": ed_hi, "edits": "every single re-parenting that keeps the tree well-formed", "how": build.EDIT_HOWS}),
            Space.of("trees", gen, check_tree, bounds={"ST_max_nodes": st_hi, "LT_max_nodes": lt_hi, "geometry": "generic bank 0"})]
     if tier == "thorough":
         files = sorted(glob.glob("/repo/examples/data/*.swc"))
